@@ -30,13 +30,14 @@ IGNORES = {
 class Opts(object):
     def __init__(self, terms='tok', max_rules=4, shaping=False, priorities=False, acyclic=False, templates=False,
                  ignore=True, term_prio=False, max_alts=3, max_items=3, depth=2, big_rep=False, anon_re=False,
-                 underscore_terms=None, ignore_kinds=None, nonnull=False, unit_bias=False):
+                 underscore_terms=None, ignore_kinds=None, nonnull=False, unit_bias=False, tok_sets=None):
         self.terms = terms; self.max_rules = max_rules; self.shaping = shaping; self.priorities = priorities
         self.acyclic = acyclic; self.templates = templates; self.ignore = ignore; self.term_prio = term_prio
         self.max_alts = max_alts; self.max_items = max_items; self.depth = depth; self.big_rep = big_rep
         self.anon_re = anon_re
         self.underscore_terms = shaping if underscore_terms is None else underscore_terms
         self.ignore_kinds = ignore_kinds
+        self.tok_sets = tok_sets
         self.unit_bias = unit_bias  # many alternatives that are a single reference to a higher-ranked rule (unit chains)
         self.nonnull = nonnull      # no construct that can match the empty string (CYK-compatible)
 
@@ -52,7 +53,7 @@ def grammars(draw, o):
     nt = draw(st.integers(1, 4))
     terms = []
     if o.terms == 'tok':
-        vals = draw(st.sampled_from(TOK_SETS))[:nt]
+        vals = draw(st.sampled_from(o.tok_sets or TOK_SETS))[:nt]
         pats = [({'kind': 'str', 'value': v, 'flags': ''}, [v]) for v in vals]
     elif o.terms == 'ovl':
         vals = draw(st.lists(st.sampled_from(OVL_VALUES), min_size=nt, max_size=nt, unique=True))
